@@ -41,9 +41,30 @@ for d in sorted(glob.glob(os.path.join(here, "seeded", "*"))):
     need = str(m.get("needs_to_manifest", ""))[:220].replace("\n", " ").replace("|", "/")
     out.append(f"| {os.path.basename(d)} | {m.get('property')} | {need} | {', '.join(caught) or '—'}{' (MISSED by ' + ', '.join(missed) + ')' if missed else ''} |")
 out.append("")
+rp = os.path.join(here, "refactors", "RESULTS.md")
+if os.path.exists(rp):
+    out.append("## II.7 Behaviour-preserving refactorings (false-alarm test)\n")
+    out.append("Independent sub-agents wrote 60 refactorings of the anchored code (3 per property, `refactors/<ID>-rk/`: patch.diff, why.md) that keep every observable behaviour; "
+               "each property's quick check was run against a patched scratch copy (`tools/refactor_matrix.sh`). Expected and obtained: rc=0, no VIOLATION, no machinery error.\n")
+    out.append(open(rp).read().split("\n", 2)[2] if open(rp).read().startswith("#") else open(rp).read())
+    out.append("")
+xs = sorted(glob.glob(os.path.join(here, "design.d", "X*.md")))
+if xs:
+    out.append("## II.8 Extras: specifications of behaviour beyond the 20 listed properties\n")
+    out.append("Ids `X..` are not claimed in MANIFEST.json (it lists only the given properties). Same technique and harness (`./check XNN --tier quick|thorough`, `tools/run_extras.sh`), evidence under `evidence_extra/`, findings in `findings.d/XNN.json`. See `EXTRAS_GUIDE.md`.\n")
+    out.append("| extra | findings known | ids |\n|---|---|---|")
+    for f in sorted(glob.glob(os.path.join(here, "findings.d", "X*.json"))):
+        fs = json.load(open(f)).get("findings", [])
+        known = [x["id"] for x in fs if x.get("status") == "known"]
+        out.append(f"| {os.path.basename(f)[:-5]} | {len(known)} | {', '.join(known)} |")
+    out.append("")
 out.append("# Part II (continued) — per-property as-built sections\n")
 for f in sorted(glob.glob(os.path.join(here, "design.d", "C*.md"))):
     out.append(open(f).read().rstrip() + "\n")
+if xs:
+    out.append("# Part II (continued) — extras\n")
+    for f in xs:
+        out.append(open(f).read().rstrip() + "\n")
 out.append("\n---\n\n# Part I — the design as written before the code (round 0), unchanged\n")
 out.append(open(os.path.join(here, "design.d", "00-PLAN.md")).read())
 open(os.path.join(here, "DESIGN.md"), "w").write("\n".join(out))
